@@ -21,7 +21,10 @@ def m(path, **kw):
     return d
 
 WF = ["vm_wf(old(self))"]
+
 WFO = ["vm_wf(final(self))", "same_shape(old(self), final(self))"]
+
+from .arms import ARMS, ARM_GLUE
 
 UNIT = dict(
     name="vmcore",
@@ -44,9 +47,11 @@ UNIT = dict(
         dict(kind="fn", file=OB, path="Object::is_zero", ret="r", ensures=["r == is_zero_spec(*self)"], props=["C09", "C08"],
              rewrites=[dict(rule="R3", re=r"\*n == 0\.", to="f64_is_zero(*n)", expect=1, why="f64 comparison with 0.0 -> shim (IEEE: true for +0.0 and -0.0)")]),
         dict(kind="struct", file=I, path="VM"),
-        m("peek", ret="r", requires=["vm_wf(self)", "distance <= self.sp"]),
+        m("peek", ret="r", requires=["vm_wf(self)", "distance <= self.sp"],
+          ensures=["self.sp - distance > 0 ==> r == self.stack@[self.sp - distance - 1]", "self.sp - distance == 0 ==> *r == Object::Null"]),
         m("top", ret="r", requires=["vm_wf(self)", "distance <= self.sp"],
-          ensures=["r is Err ==> r->Err_0.line == line", "r is Err <==> self.sp == distance"], props=["C08", "C13"]),
+          ensures=["r is Err ==> r->Err_0.line == line", "r is Err <==> self.sp == distance",
+                   "r matches Ok(x) ==> x == self.stack@[self.sp - distance - 1]"], props=["C08", "C13"]),
         m("push", ret="r", requires=WF, ensures=WFO + ["r is Err ==> r->Err_0.line == line && final(self).sp == old(self).sp",
                                                         "r is Ok <==> old(self).sp < old(self).stack@.len()",
                                                         "r is Ok ==> final(self).sp == old(self).sp + 1 && final(self).stack@ == old(self).stack@.update(old(self).sp as int, obj)",
@@ -69,7 +74,11 @@ UNIT = dict(
                    "r is Err ==> r->Err_0.line == line", "final(self).sp == old(self).sp", "final(self).stack@ == old(self).stack@",
                    "r is Ok ==> final(self).frames_index == old(self).frames_index + 1",
                    "r is Err ==> final(self).frames_index == old(self).frames_index"], props=["C08", "C13"]),
-        m("pop_frame", ret="r", requires=WF + ["old(self).frames_index >= 2"], ensures=WFO),
+        m("pop_frame", ret="r", requires=["vm_wf_nosp(old(self))", "old(self).frames_index >= 2"],
+          ensures=["vm_wf_nosp(final(self))", "same_shape(old(self), final(self))", "r == old(self).frames@[old(self).frames_index - 1]",
+                   "final(self).frames_index == old(self).frames_index - 1", "final(self).frames@ == old(self).frames@",
+                   "final(self).sp == old(self).sp", "final(self).stack@ == old(self).stack@"],
+          rewrites=[dict(rule="R1", re=r"self\.frames\[self\.frames_index\]\.clone\(\)", to="clone_frame(&self.frames[self.frames_index])", expect=1, why="derived Clone -> structural copy shim")]),
         m("call_func", ret="r", requires=WF + ["num_args <= old(self).sp", "closure.func.num_locals <= 0xffff_ffff",
                                                "old(self).frames@[old(self).frames_index - 1].ip <= usize::MAX - 2"],
           ensures=["vm_wf_nosp(final(self))", "same_shape(old(self), final(self))", "r is Ok ==> vm_wf(final(self))",
@@ -83,6 +92,7 @@ UNIT = dict(
                                     "elements@ =~= self.stack@.subrange(start_index as int, i as int)"])}),
         m("push_closure", ret="r", requires=WF + ["const_idx < old(self).constants@.len()", "num_free <= old(self).sp"],
           ensures=WFO + ["r is Err ==> r->Err_0.line == line",
+                         "final(self).frames_index == old(self).frames_index", "final(self).frames@ == old(self).frames@",
                          "r is Ok ==> final(self).sp == old(self).sp - num_free + 1",
                          "r is Ok ==> (*final(self).stack@[final(self).sp - 1] matches Object::Clos(c) && c.free@ =~= old(self).stack@.subrange(old(self).sp - num_free, old(self).sp as int))"],
           props=["C08", "C13", "C04"],
@@ -99,6 +109,7 @@ UNIT = dict(
         m("binary_op", ret="r",
           requires=WF + ["op_matches(optype, op)"],
           ensures=WFO + ["r is Err ==> r->Err_0.line == line",
+                         "final(self).frames_index == old(self).frames_index", "final(self).frames@ == old(self).frames@",
                          "r is Ok ==> old(self).sp >= 2 && op_table(optype, *old(self).stack@[old(self).sp - 2], *old(self).stack@[old(self).sp - 1])",
                          "r is Ok ==> final(self).sp == old(self).sp - 1"],
           props=["C09", "C08", "C13"],
@@ -109,10 +120,14 @@ UNIT = dict(
                     dict(rule="R3", re=r"Array::new\(e1\)", to="array_new(e1)", expect=1, why="opaque Array constructor shim")]),
         m("bitwise_op", ret="r", requires=WF + ["op_is_bitwise(op)"],
           ensures=WFO + ["r is Err ==> r->Err_0.line == line",
+                         "final(self).frames_index == old(self).frames_index", "final(self).frames@ == old(self).frames@",
                          "r is Ok ==> old(self).sp >= 2 && (*old(self).stack@[old(self).sp - 2] is Integer) && (*old(self).stack@[old(self).sp - 1] is Integer)",
                          "r is Ok ==> final(self).sp == old(self).sp - 1"],
           props=["C09", "C08", "C13"],
           rewrites=[dict(rule="R7", re=r"op: fn\(a: &Object, b: &Object\) -> Object,", to="op: OpId,", expect=1, why="fn-pointer parameter -> operator tag"),
                     dict(rule="R7", re=r"\bop\(&left, &right\)", to="apply_op(op, &left, &right)", expect=1, why="indirect call -> dispatch shim")]),
+        # ---------------- opcode arms of VM::run (R8: each arm body verified as a function) ----------------
+        dict(kind="raw", label="arm_glue", text=ARM_GLUE),
+    ] + ARMS + [
     ],
 )
